@@ -119,6 +119,7 @@ type FnCtx struct {
 	panics   []Term
 	nonnil   map[string]bool
 	guardSeen map[string]bool
+	scoped    []int // script lines (assumptions) that are dropped after the next loop head
 	freshRefs map[string]bool
 }
 
@@ -769,6 +770,17 @@ func (fc *FnCtx) enterLoop(li *loopInfo, st *State) {
 			fc.oblige(st, site+".invariant", lab, "entry", t, cl.Src)
 		}
 	}
+	// assumptions that were only meant to reach this loop head (e.g. "sorted with respect to
+	// less" after sort.Slice: a two-variable quantifier that the invariants now stand in for)
+	for _, idx := range fc.top.scoped {
+		if fc.S.Until == nil {
+			fc.S.Until = map[int]int{}
+		}
+		if _, ok := fc.S.Until[idx]; !ok {
+			fc.S.Until[idx] = len(fc.S.Lines)
+		}
+	}
+	fc.top.scoped = nil
 	// 2. havoc
 	fc.havocLoop(li, st)
 	// 3. assume invariants
